@@ -345,7 +345,7 @@ def r14(ctx):
     # merging E examined groups by a linear search over the groups of the stage costs E^2/2 comparisons: every file of a hard-linked snapshot tree is
     # such a group when a snapshot directory is rotated away during the run (--unique, --rf-under, -H)
     if cmp_ok and not chained:
-        ctx.check(by_map, rule, core.path + '|examined-groups-rejoin-by-key', rec[0].where(), 'the group of the same (file_len, file_hash) is found through a map',
+        ctx.advise(by_map, rule, core.path + '|examined-groups-rejoin-by-key', rec[0].where(), 'the group of the same (file_len, file_hash) is found through a map',
                   'every examined group is merged with a linear search over all groups of the stage, and every group that finds no partner (practically always) is appended, so the searched vector '
                   'grows with each of them: 64000 hard-linked files whose snapshot directory is removed during `group --unique` take 28 s instead of 4 s (x15.6 for x4 files), a million about 15 minutes')
     ctx.check(cmp_ok and not chained, rule, core.path + '|examined-groups-rejoin', (chained[0].where() if chained else rec[0].where()),
